@@ -114,6 +114,8 @@ def render_doc(prog, s):
     if sh == "obj0":
         return "{}"
     if sh == "nonobj":
+        if str(s["key"]).startswith("name:"):       # a bare JSON string spelling a message name
+            return json.dumps(s["key"][5:], ensure_ascii=False)
         return NONOBJ[s["key"]]
     if sh == "obj2":
         return '{"%s":{},"zz_second":{}}' % s["key"]
@@ -127,7 +129,8 @@ def rust_ident(n):
 
 
 # response types of queries: the specification's name -> the Rust type (some are no type paths)
-RESP_TY = {"QResp": "QResp", "QRespB": "QRespB", "Tup1": "(QResp,)", "Tup2": "(QResp, u64)", "VecTup1": "Vec<(u64,)>", "ArrB": "[QRespB; 2]"}
+RESP_TY = {"QResp": "QResp", "QRespB": "QRespB", "Tup1": "(QResp,)", "Tup2": "(QResp, u64)", "VecTup1": "Vec<(u64,)>", "ArrB": "[QRespB; 2]",
+           "Bin": "Binary", "Str": "String"}
 
 
 def serde_names(m, indent):
@@ -558,9 +561,10 @@ def program_src(prog):
         tr = p["id"].capitalize()
         nested = bool(p.get("_nested"))
         o.append("    pub mod %s {%s\n        use %ssuper::*;\n        use sylvia::interface;\n\n        #[interface]\n"
-                 "        #[sv::custom(msg=sylvia::cw_std::Empty, query=sylvia::cw_std::Empty)]\n"
+                 "        #[sv::custom(msg=sylvia::cw_std::Empty, query=sylvia::cw_std::Empty)]\n%s"
                  "        pub trait %s {\n            type Error: From<StdError>;\n%s\n" % (
                      p["id"], " pub mod iface {" if nested else "", "super::" if nested else "",
+                     "".join("        #[sv::msg_attr(%s, %s)]\n" % (a["kind"], a["text"]) for a in p.get("mattrs", [])),
                      tr, "            type ItemT: sylvia::types::CustomMsg;\n" if generic and uses_gen(p) else ""))
         for m in p["methods"]:
             o.append("    " + handler_src(prog, p, m, True).replace("\n        ", "\n            "))
@@ -580,6 +584,8 @@ def program_src(prog):
     o.append("    #[sylvia::entry_points%s]\n    #[sylvia::contract]\n    #[sv::error(ContractError)]\n" % ("(generics<GenVal>)" if generic else ""))
     for p in ifaces:
         o.append("    #[sv::messages(%s as %s)]\n" % (imod(p), p["id"].capitalize()))
+    for a in own.get("mattrs", []):        # attributes forwarded to the message type of a kind
+        o.append("    #[sv::msg_attr(%s, %s)]\n" % (a["kind"], a["text"]))
     for k in prog.get("overrides", []):
         o.append("    #[sv::override_entry_point(%s=ov::%s(%s))]\n" % (k, k, "sylvia::cw_std::Reply" if k == "reply" else "verif_rrt::OvMsg"))
     o.append("    impl%s Ctr%s%s {\n        pub const fn new() -> Self {\n            %s\n        }\n" % (
